@@ -33,6 +33,8 @@ type SV struct {
 	Sub []*SV
 	// Fn: statically known function of a func value.
 	Fn *ssa.Function
+	// Guess: Cands were guessed for a value read from memory (every type boxed so far), not derived from the value's construction.
+	Guess bool
 	// File: the value is (or was converted from) an interface with a Seek method: Read/Write on it are positional file operations.
 	File bool
 	// Boxed: payload of an interface value built by MakeInterface in this VC.
